@@ -317,6 +317,17 @@ async fn run(_tier: Tier) {
     let _ = ended;
     sim::stat_add("counter.response_messages", wires.len() as u64);
     ev!("{} response messages, sizes {:?}", wires.len(), wires.iter().map(|w| w.bytes.len()).collect::<Vec<_>>());
+    // RFC 1995 section 2: over UDP the answer is one message - the transfer
+    // if it fits, else the current SOA alone (the client then retries over TCP).
+    if udp && wires.len() > 1 {
+        sim::violation(
+            P,
+            "fidelity",
+            format!("udp-request-answered-with-several-messages/{:?}", ask),
+            format!("{:?} {}->{} over UDP was answered with {} messages of {:?} octets; a datagram client gets one message - the whole transfer or the SOA alone", ask, i, j, wires.len(), wires.iter().map(|w| w.bytes.len()).collect::<Vec<_>>()),
+        );
+        return;
+    }
     let verdict = reference(&wires, &sec_content);
     // Expected outcome.
     let want: Result<&Content, &str> = match ask {
